@@ -612,7 +612,7 @@ Proof.
       destruct (Hhd Hta v Hw) as (a & tl' & E & Hn). exists a, tl'. split; [exact E|]. intros _. apply Hn. reflexivity.
     + inversion H as [|? ? Hhd Htl]; subst. apply IH; [exact Htl| |].
       * cbn [mp_wf_ty] in Ht. destruct Ht as [_ Ht]. exact Ht.
-      * intros k' a' Hi. apply Hin. right. exact Hi.
+      * intros k' a' Hi. apply (Hin k' a'). right. exact Hi.
 Qed.
 
 Lemma mp_enc_length t v : mp_wf_ty t -> mp_wf t v -> (1 <= length (mp_enc t v))%nat.
